@@ -120,3 +120,49 @@ package wal
 //@   invariant len(ents) >= 0 && (ents == nil || fresh(ents))
 //@   invariant forall k int :: 0 <= k && k < len(ents) ==> ents[k].Index == w.start.Index + 1 + k
 //@   invariant len(ents) > 0 ==> ents[len(ents)-1].Index == w.enti || w.enti <= w.start.Index
+
+//@ property C03
+// ---- Save: what reaches the disk before Save returns ----
+// ghost(flushes, w): number of completed buffer flushes to the file; ghost(fsyncs, w): completed fdatasyncs
+
+//@ func (w *WAL) sync(fsync bool) error
+//@   trusted bufio flush + fdatasync system call
+//@   ensures result == nil ==> ghost(flushes, w) == old(ghost(flushes, w)) + 1
+//@   ensures result == nil && fsync ==> ghost(fsyncs, w) == old(ghost(fsyncs, w)) + 1
+//@   ensures !fsync || result != nil ==> ghost(fsyncs, w) >= old(ghost(fsyncs, w))
+//@   ensures result != nil ==> ghost(flushes, w) >= old(ghost(flushes, w))
+//@   modifies ghost(flushes, w), ghost(fsyncs, w)
+
+//@ func (w *WAL) cut() error
+//@   trusted segment rotation (file-system calls); syncs the old and the new segment with sync(!w.optimizedFsync)
+//@   ensures result == nil ==> ghost(flushes, w) > old(ghost(flushes, w))
+//@   ensures result == nil && !w.optimizedFsync ==> ghost(fsyncs, w) > old(ghost(fsyncs, w))
+//@   ensures ghost(fsyncs, w) >= old(ghost(fsyncs, w)) && ghost(flushes, w) >= old(ghost(flushes, w))
+//@   ensures w.optimizedFsync == old(w.optimizedFsync)
+//@   modifies ghost(flushes, w), ghost(fsyncs, w), w.locks, w.encoder
+
+//@ func (w *WAL) saveEntry(e *raftpb.Entry) error
+//@   trusted protobuf marshalling and buffered write of one record
+//@   modifies w.enti
+
+//@ extern github.com/youzan/ZanRedisDB/pkg/pbutil.MustMarshal func(m Marshaler) []byte
+//@ func (e *encoder) encode(rec *walpb.Record) error
+//@   trusted buffered write of one framed record (CRC chained)
+
+//@ func (w *WAL) saveState(s *raftpb.HardState) error
+//@   requires w != nil && s != nil
+//@   ensures (s.Term == 0 && s.Vote == 0 && s.Commit == 0) ==> result == nil && w.state.Term == old(w.state.Term) && w.state.Vote == old(w.state.Vote) && w.state.Commit == old(w.state.Commit)
+//@   ensures !(s.Term == 0 && s.Vote == 0 && s.Commit == 0) ==> w.state.Term == s.Term && w.state.Vote == s.Vote && w.state.Commit == s.Commit
+//@   modifies w.state.Term, w.state.Vote, w.state.Commit
+
+// Raft's "persist before answering" set: new entries, a changed vote or a changed term are flushed before
+// Save returns; a changed vote/term is additionally fsynced, in the optimized-fsync mode too.
+//@ func (w *WAL) Save(st raftpb.HardState, ents []raftpb.Entry) error
+//@   requires w != nil && len(w.locks) >= 1 && w.locks[len(w.locks)-1] != nil
+//@   ensures result == nil && (len(ents) != 0 || (!(st.Term == 0 && st.Vote == 0 && st.Commit == 0) && (st.Vote != old(w.state.Vote) || st.Term != old(w.state.Term)))) ==> ghost(flushes, w) > old(ghost(flushes, w))
+//@   ensures result == nil && !(st.Term == 0 && st.Vote == 0 && st.Commit == 0) && (st.Vote != old(w.state.Vote) || st.Term != old(w.state.Term)) ==> ghost(fsyncs, w) > old(ghost(fsyncs, w))
+//@   ensures result == nil && !w.optimizedFsync && (len(ents) != 0 || !(st.Term == 0 && st.Vote == 0 && st.Commit == 0)) && (len(ents) != 0 || st.Vote != old(w.state.Vote) || st.Term != old(w.state.Term)) ==> ghost(fsyncs, w) > old(ghost(fsyncs, w))
+//@   modifies *
+//@ loop 1
+//@   invariant w.state.Term == old(w.state.Term) && w.state.Vote == old(w.state.Vote) && w.optimizedFsync == old(w.optimizedFsync) && sameSlice(w.locks, old(w.locks)) && ghost(flushes, w) == old(ghost(flushes, w)) && ghost(fsyncs, w) == old(ghost(fsyncs, w))
+//@   invariant w.locks[len(w.locks)-1] == old(w.locks[len(w.locks)-1])
